@@ -449,7 +449,11 @@ class LowerToIRVisitor(Visitor.DefaultVisitor):
                 ctx.BasicBlock.AddInstruction(si)
                 return si
             else:
-                leftComponentCount = value.Type.Size
+                # A scalar can be swizzled like a one-component vector
+                if value.Type.IsVector():
+                    leftComponentCount = value.Type.Size
+                else:
+                    leftComponentCount = 1
                 indices = list(range(leftComponentCount))
 
                 for i, c in enumerate(member.GetName()):
